@@ -630,8 +630,9 @@ func (uc *AnalyzeUseCase) calculateSummary(summary *domain.AnalyzeSummary, respo
 
 // getFilePatterns loads file patterns and recursive setting from configuration or returns defaults
 func (uc *AnalyzeUseCase) getFilePatterns(configPath string) ([]string, []string, bool, error) {
-	// Default patterns
-	defaultInclude := []string{"**/*.py", "*.pyi"}
+	// Default patterns: the built-in defaults of the configuration (config.DefaultConfig), so that a
+	// run without a configuration file selects the same files as a run whose file leaves them unset
+	defaultInclude := []string{"**/*.py"}
 	defaultExclude := []string{"test_*.py", "*_test.py"}
 	defaultRecursive := true
 
